@@ -590,15 +590,15 @@ class Powertrain:
                         'tangential force' in variables:
                     variable_list.append('tangential force')
                     unit_list.append(force_unit)
-                    if isinstance(element, GearBase):
-                        if element.bending_stress_is_computable and \
-                                'bending stress' in variables:
-                            variable_list.append('bending stress')
-                            unit_list.append(stress_unit)
-                            if element.contact_stress_is_computable and \
-                                    'contact stress' in variables:
-                                variable_list.append('contact stress')
-                                unit_list.append(stress_unit)
+                if isinstance(element, GearBase):
+                    if element.bending_stress_is_computable and \
+                            'bending stress' in variables:
+                        variable_list.append('bending stress')
+                        unit_list.append(stress_unit)
+                    if element.contact_stress_is_computable and \
+                            'contact stress' in variables:
+                        variable_list.append('contact stress')
+                        unit_list.append(stress_unit)
 
                 for variable, unit in zip(variable_list, unit_list):
                     interpolation_function = interp1d(
